@@ -234,7 +234,7 @@ PROPS = {
     "C19": {
         "props": "TrackVerif.Geo.PropsC19",
         "streams": [("GE", 2400, 40000)],
-        "clauses": ["ge.sincosd", "ge.atan2d", "ge.meet", "ge.same_direction", "ge.horizon_nan", "ge.forward_nan", "ge.roundtrip_geo", "ge.roundtrip_plane", "ge.on_both", "ge.crossing_mm", "ge.inside_ok", "ge.outside_err"],
+        "clauses": ["ge.sincosd", "ge.atan2d", "ge.meet", "ge.same_direction", "ge.horizon_nan", "ge.forward_nan", "ge.roundtrip_geo", "ge.reverse_nan", "ge.roundtrip_plane", "ge.on_both", "ge.crossing_mm", "ge.inside_ok", "ge.outside_err"],
         "rule": "plane algebra on random points (bit-exact); sameDirection near 0/90/180/360; Forward/Reverse round trips for centres anywhere and points 1 m..8900 km away (NaN expected beyond 10200 km); "
                 "segment pairs built by geodesic.Direct through a known crossing point C at crossing angles 5..175 deg, lengths 10 m..1000 km, C at 5..95% (inside) or outside each segment, not straddling "
                 "the 180th meridian: extended intersection within 1 mm of C, azimuths equal/opposite within 1e-6 deg, Intersect ok iff inside both",
